@@ -172,7 +172,7 @@ fn pass<F: FnOnce(&mut vh::VShell, &mut Vec<(String, String)>)>(spec: &str, toks
 
 /// streams that may hang or abort are run in a forked child under a watchdog
 fn isolated(stream: &str) -> bool {
-    matches!(stream, "xenv" | "xall" | "plan" | "subst" | "xrange" | "head" | "plan1" | "bseq" | "aliasrt" | "srun" | "jobs" | "envseq")
+    matches!(stream, "xenv" | "xall" | "plan" | "subst" | "xrange" | "head" | "plan1" | "bseq" | "aliasrt" | "srun" | "jobs" | "envseq" | "cmpl" | "cmplglob")
 }
 
 fn run_isolated(stream: &str, f: &[&str], timeout_ms: i32) -> String {
@@ -291,6 +291,58 @@ fn panic_text(e: Box<dyn std::any::Any + Send>) -> String {
     "PANIC".to_string()
 }
 
+
+// ---------------------------------------------------------------- C20: completion in a generated directory
+
+/// create the tree `hexpath:d|f,...` in a fresh scratch directory next to the harness's cwd and enter it
+fn c20_enter(tree: &str) -> (std::path::PathBuf, std::path::PathBuf) {
+    let base = std::env::current_dir().expect("cwd");
+    let parent = base.parent().map(|p| p.to_path_buf()).unwrap_or(base.clone());
+    let scratch = parent.join(format!("c20-scratch-{}", std::process::id()));
+    let _ = std::fs::remove_dir_all(&scratch);
+    std::fs::create_dir_all(&scratch).expect("scratch dir");
+    if tree != "[]" && !tree.is_empty() {
+        for e in tree.split(',') {
+            let mut it = e.split(':');
+            let path = scratch.join(unhex(it.next().unwrap()));
+            if it.next() == Some("d") {
+                std::fs::create_dir_all(&path).expect("mkdir");
+            } else {
+                if let Some(p) = path.parent() {
+                    std::fs::create_dir_all(p).expect("mkdir parent");
+                }
+                File::create(&path).expect("create entry");
+            }
+        }
+    }
+    std::env::set_current_dir(&scratch).expect("enter scratch");
+    (base, scratch)
+}
+
+fn c20_leave(dirs: (std::path::PathBuf, std::path::PathBuf)) {
+    let _ = std::env::set_current_dir(&dirs.0);
+    let _ = std::fs::remove_dir_all(&dirs.1);
+}
+
+/// the line must be one command; its plan in the syntax of the `plan` stream
+fn c20_plan_line(sh: &mut vh::VShell, line: &str) -> String {
+    let items = vh::line_to_cmds(line);
+    if items.len() != 1 {
+        return "ERR not-one-command".to_string();
+    }
+    match vh::from_line(&items[0], sh) {
+        Ok(p) => {
+            let cmds = if p.commands.is_empty() { "[]".to_string() } else { p.commands.iter().map(cmd_out).collect::<Vec<_>>().join(";") };
+            format!("ok|{}|{}|{}", if p.background { 1 } else { 0 }, pairs_out(&p.envs), cmds)
+        }
+        Err(e) => format!("err|{}", hex(&e)),
+    }
+}
+
+fn c20_closing(sep: &str) -> &str {
+    if sep == "'" || sep == "\"" || sep == "`" { sep } else { "" }
+}
+
 fn run_case(stream: &str, f: &[&str]) -> String {
     match stream {
         "l2c" => hex_list(&vh::line_to_cmds(&unhex(f[0]))),
@@ -302,6 +354,53 @@ fn run_case(stream: &str, f: &[&str]) -> String {
         "wrap" => hex(&vh::wrap_sep_string(&unhex(f[0]), &unhex(f[1]))),
         "unq" => hex(&vh::unquote(&unhex(f[0]))),
         "arith" => (if vh::is_arithmetic(&unhex(f[0])) { "1" } else { "0" }).to_string(),
+        "escpath" => hex(&vh::escape_path(&unhex(f[0]))),
+        "ews" => format!("{}", vh::escaped_word_start(&unhex(f[0]))),
+        // env, tree, ctx, prefix, typed word, for_dir, prog: complete_path in the generated directory, then every
+        // candidate's line through line_to_cmds + from_line (in that directory)
+        "cmpl" => with_env(f[0], |sh| {
+            let dirs = c20_enter(f[1]);
+            let word = unhex(f[4]);
+            let prog = unhex(f[6]);
+            let cs = vh::complete_path(&word, f[5] == "1");
+            let (toks, _) = vh::parse_line(&word);
+            let sep = toks.last().map(|t| t.0.clone()).unwrap_or_default();
+            // the order of entries with one and the same inserted text is read_dir's: made canonical here (after checking
+            // that the list came back sorted by inserted text)
+            let sorted = cs.windows(2).all(|w| w[0].0 <= w[1].0);
+            let mut outs: Vec<String> = vec![];
+            let mut keyed: Vec<(String, String)> = vec![];
+            for (comp, disp, sfx) in cs {
+                let is_dir = sfx == "/";
+                let line = format!("{} {}{}", prog, comp, if is_dir { format!("/{}", c20_closing(&sep)) } else { String::new() });
+                let d = match &disp { Some(x) => hex(x), None => "~".to_string() };
+                let k = if is_dir { "/".to_string() } else if sfx.is_empty() { "d".to_string() } else { sfx.clone() };
+                keyed.push((comp.clone(), format!("{}@{}@{}@{}", hex(&comp), d, k, c20_plan_line(sh, &line))));
+            }
+            c20_leave(dirs);
+            keyed.sort();
+            for (_, o) in keyed {
+                outs.push(o);
+            }
+            if !sorted {
+                outs.insert(0, "UNSORTED".to_string());
+            }
+            if outs.is_empty() { "[]".to_string() } else { outs.join("&") }
+        }),
+        // tree, patterns: what the glob crate answers in the generated directory, in the `g=` syntax of the environment field
+        "cmplglob" => {
+            let dirs = c20_enter(f[0]);
+            let mut outs: Vec<String> = vec![];
+            for ph in f[1].split(',') {
+                let ans = match vh::glob_query(&unhex(ph)) {
+                    Some(v) => if v.is_empty() { "[]".to_string() } else { v.iter().map(|x| hex(x)).collect::<Vec<_>>().join("/") },
+                    None => "!".to_string(),
+                };
+                outs.push(format!("{}:{}", ph, ans));
+            }
+            c20_leave(dirs);
+            outs.join(",")
+        }
         "redir" => match vh::tokens_to_redirections(&toks_in(f[0])) {
             Ok((t, r)) => {
                 let rs = if r.is_empty() {
